@@ -36,7 +36,7 @@ def build() -> Check:
     fn = pm.ckpt_fn
     c_cc = fn_construct(fn)
     upd_traces = [t for t in cc if dict(t.pc).get("operation_update") == "update"]
-    ck.floor("create_checkpoint_update_traces", len(upd_traces), 10)
+    ck.floor("create_checkpoint_update_traces", len(upd_traces), 4)
     b_guard, b_lock, b_mark = [], [], []
     n_orphan = 0
     guard_keys = set()
@@ -117,7 +117,7 @@ def build() -> Check:
                                     callers_ok = False
                     inside = sites > 0 and callers_ok
                 ck.ob("R1.lock-discipline", fn_construct(fi), inside, f"{n.attr} accessed outside `with self._parent_done_lock`", where=f"line {n.lineno}", cell=n.attr)
-    ck.floor("tree_accesses", n_acc, 6)
+    ck.floor("tree_accesses", n_acc, 3)
 
     # R2 closure shape of the marking routine
     mo = sc.methods.get("_mark_orphans")
@@ -186,7 +186,7 @@ def build() -> Check:
                 if any(e.kind in ("USER", "CKPT") for e in after) or not (t.exc_class() or "").endswith("OrphanedChildException"):
                     bad.append(("an orphan rejection does not stop the operation", t))
         ck.ob("R6.first-time-operation-checks-first", cls_construct(ci), not bad, (bad[0][0] + ": " + trace_sig(bad[0][1])) if bad else "", cell=ABSENT)
-    ck.floor("first_time_user_entries", n_first, 10)
+    ck.floor("first_time_user_entries", n_first, 3)
 
     # who may catch the orphan exception
     n_h = 0
